@@ -58,7 +58,7 @@ def check(tier):
     # programs of the L1 generator, incl. ill-formed ones (error text is an output too)
     import gen, prtree
     dbs = json.load(open(os.path.join(ROOT, "corpus", "dbs_quick.json")))
-    ng = 60 if tier == "quick" else 600
+    ng = 150 if tier == "quick" else 2500
     g = gen.G(seed() * 7919, safe=False, p_shadow=0.1)
     progs = [g.program(i) for i in range(ng)]
     for i, p in enumerate(progs):
